@@ -22,6 +22,8 @@
 import GfsModel.Cpp
 import GfsSpec.Grammar
 import GfsProofs.CppLemmas
+import GfsGen.Facts
+import GfsModel.ExpectedSrc
 
 namespace Gfs.Props.C19
 open Gfs Gfs.Spec Gfs.Proofs
@@ -90,5 +92,10 @@ example : Forall2 CompText [Comp.stepped 7 10 'x' 2] ["007-10x02".toList] ∧
     simp only [List.mem_singleton] at hc
     subst hc
     simp [Comp.fits, Fits, minInt64, maxInt64]
+
+/-- the declarations of /repo this property's model and specification were written from are,
+    on this run, the ones the model was last aligned with (digest of their comment- and
+    layout-insensitive fingerprints, re-extracted by tools/gofacts) -/
+theorem C19_source : Gfs.Gen.sourceDigestC19 = Gfs.expectedSourceDigestC19 := by decide
 
 end Gfs.Props.C19
